@@ -392,11 +392,15 @@ Definition spawn (ps : list (list mstep * N)) (st : state) : state :=
      s_fresh := s_fresh st; s_mu := s_mu st; s_tcnt := s_tcnt st; s_tmu := s_tmu st;
      s_procs := procs_of 0 ps |}.
 
-(* authority restart: every in-memory structure is lost, the files stay *)
+(* authority restart: every in-memory structure is lost, the files stay.  Tasks do not survive a
+   restart and a task id is a uuid minted when the task is spawned, so the TaskHandle counter of a
+   task that does not exist (yet / any more) is modelled as the number of frames its stream has -
+   0 for every id a spawn can mint.  (A program that re-used the id of a dead task would go on
+   numbering its stream here; the implementation cannot express such a program.) *)
 Definition restart (st : state) : state :=
   {| s_log := s_log st; s_side := s_side st; s_next := fun _ => None; s_index := s_index st;
-     s_fresh := s_fresh st; s_mu := None; s_tcnt := fun _ => 0; s_tmu := fun _ => None;
-     s_procs := fun _ => None |}.
+     s_fresh := s_fresh st; s_mu := None; s_tcnt := fun t => next_of KTask t (s_log st);
+     s_tmu := fun _ => None; s_procs := fun _ => None |}.
 
 Definition empty_state : state :=
   {| s_log := []; s_side := fun _ => None; s_next := fun _ => None; s_index := []; s_fresh := 0;
